@@ -3,6 +3,7 @@ from .. import cfg as C
 from ..terms import Terms, norm, fmt, walk, field_of
 from ..witness import cargo_check
 from .common import *
+from .qmodel import private_region
 
 EXPLANATION = ('R1 single-writer election: every access to the UnsafeCell in set() is dominated by the Ok edge of one strong '
                'compare_exchange(state, INITIAL, x) with x distinct from INITIAL and from the constant readers test; R2 the '
@@ -20,6 +21,28 @@ RMW = ('compare_exchange', 'compare_exchange_weak', 'swap', 'store', 'fetch_add'
 
 def ordering(t):
     return t[2] if t[0] == 'adt' and t[1].endswith('Ordering') else None
+
+
+def evalc(mac, t):
+    """constant folding for the state constants: `Enum::Variant as usize` of a field-less local enum becomes its
+    discriminant (possibly behind a const fn helper, already inlined)"""
+    t = norm(t)
+    if t[0] == 'cast' and t[4][0] == 'discr':
+        t = t[:4] + (t[4][1],)
+    if t[0] == 'cast' and t[4][0] == 'adt' and not t[4][3]:
+        a = mac.adts.get(t[4][1])
+        if a and a['kind'] == 'Enum':
+            for v in a['variants']:
+                if v['name'] == t[4][2]:
+                    return ('const', t[3], str(int(v['discr'])), None)
+    if t[0] == 'cast' and t[4][0] == 'const' and t[1] in ('IntToInt',):
+        return ('const', t[3], t[4][2], None)
+    if t[0] == 'call' and isinstance(t[1], str) and strip_generics(t[1]) in mac.bodies and all(a[0] in ('adt', 'const') for a in t[2]):
+        from .. import symb
+        r = symb.apply(('fn', strip_generics(t[1])), t[2])
+        if r[0] != 'call':
+            return evalc(mac, r)
+    return t
 
 
 def cell_ptr(t, cellf):
@@ -88,14 +111,14 @@ def check(ctx, rep):
     if not any('"unsafe_code"' in a for a in []):
         pass
     # ---- new(): initial constant
-    rts = ret_terms(Terms(m['new']), [0])
+    rts = ret_terms(Terms(inl(mac, m['new'])), [0])
     E = None
     oknew = False
     if len(rts) == 1 and list(rts)[0][0] == 'adt':
         fs = dict(list(rts)[0][3])
         st, cv = fs.get(statef), fs.get(cellf)
-        if st is not None and term_callee_is(st, AT + 'new') and st[2][0][0] == 'const':
-            E = st[2][0][2]
+        if st is not None and term_callee_is(st, AT + 'new') and evalc(mac, st[2][0])[0] == 'const':
+            E = evalc(mac, st[2][0])[2]
         oknew = E is not None and cv is not None and term_callee_is(cv, 'core::cell::UnsafeCell::new') and cv[2][0][0] == 'adt' and cv[2][0][2] == 'None'
     rep.ob('R4', 'new/initial-state', oknew, m['new'].where(), 'new() = (state: INITIAL=%s, value: None)' % E if oknew else 'new() does not start as (constant state, None)')
     if E is None:
@@ -120,6 +143,7 @@ def check(ctx, rep):
             if d[0] == 'bin' and d[1] in ('Eq', 'Ne'):
                 a, b = d[2], d[3]
                 ld, cst = (a, b) if term_callee_is(a, AT + 'load') else (b, a)
+                cst = evalc(mac, cst)
                 if term_callee_is(ld, AT + 'load') and self_field_name(ld[2][0]) == statef and cst[0] == 'const':
                     want_truth = (d[1] == 'Eq')
                     if ('bool', want_truth) in labels:
@@ -152,7 +176,7 @@ def check(ctx, rep):
         okc = all(term_callee_is(r, '<core::option::Option as core::clone::Clone>::clone') for r in somes) and bool(somes)
         rep.ob('R3', 'get/returns-clone-of-stored', okc, m['get'].where(), 'returns a clone of the stored Option<Arc<T>> (always the same instance)')
     # is_set agrees with get's test
-    ib = m['is_set']
+    ib = inl(mac, m['is_set'])
     Ti = Terms(ib)
     r = ret_terms(Ti, [0])
     oki = False
@@ -160,6 +184,7 @@ def check(ctx, rep):
         d = list(r)[0]
         if d[0] == 'bin' and d[1] == 'Eq':
             ld, cst = (d[2], d[3]) if term_callee_is(d[2], AT + 'load') else (d[3], d[2])
+            cst = evalc(mac, cst)
             oki = term_callee_is(ld, AT + 'load') and self_field_name(ld[2][0]) == statef and cst[0] == 'const' and (K is None or cst[2] == K) \
                 and ordering(ld[2][1]) in ('Acquire', 'SeqCst')
     rep.ob('R3', 'is_set/acquire-load-of-complete', oki, ib.where(), 'is_set() = (load(state, Acquire|SeqCst) == COMPLETE)' if oki else 'is_set() is not an acquire load compared with COMPLETE')
@@ -195,7 +220,7 @@ def check(ctx, rep):
                 'a swap/weak CAS/load+store lets a later set disturb a completed one or two setters write concurrently' % (len(cas), [o for _, o in others]))
         return
     cbi, cct = cas[0]
-    exp, new = cct[2][1], cct[2][2]
+    exp, new = evalc(mac, cct[2][1]), evalc(mac, cct[2][2])
     okc = exp[0] == 'const' and exp[2] == E and new[0] == 'const' and new[2] not in (E, K)
     rep.ob('R1', 'set/cas-from-initial-to-private-state', okc, sb.where(cbi),
            'compare_exchange(INITIAL=%s -> %s), neither INITIAL nor COMPLETE=%s' % (E, new[2], K) if okc else
@@ -218,7 +243,7 @@ def check(ctx, rep):
     rep.ob('R1', 'set/loser-leaves-everything-alone', not bad, m['set'].where(), 'a failed CAS returns without touching cell or state' if not bad else 'a losing set still writes the cell/state')
     # R2 publish
     writes = [bi for bi, kind in acc if kind == 'write']
-    pub = [(bi, ct) for bi, ct in stores if ct[2][1][0] == 'const' and ct[2][1][2] == K]
+    pub = [(bi, ct) for bi, ct in stores if evalc(mac, ct[2][1])[0] == 'const' and evalc(mac, ct[2][1])[2] == K]
     okp = len(pub) >= 1 and len(stores) == len(pub)
     why = ''
     if not okp:
@@ -254,9 +279,20 @@ def check(ctx, rep):
     # ---- R4 frame over the crate
     offenders = []
     nbodies = 0
+    # private helpers of set()/get()/is_set() were analysed inlined at their only call sites
+    allowed = {m['new'].path}
+    for n_ in ('set', 'get', 'is_set'):
+        allowed |= private_region(mac, m[n_], within_type=H)
+    for n_, ib_, T_ in (('get', gb, Tg), ('is_set', ib, Ti)):
+        for bi, t in ib_.calls():
+            k = strip_generics(t.get('callee_full', ''))
+            if k.startswith(AT) and k[len(AT):] in RMW and not ib_.blocks[bi]['cleanup']:
+                ct = norm(T_.call_term(bi))
+                if any(y[0] == 'field' and y[2] == statef for y in walk(ct[2][0])):
+                    offenders.append((m[n_], None, 'modifies the state'))
     for b in mac.all_bodies:
         nbodies += 1
-        if b.path in (m['set'].path, m['get'].path, m['is_set'].path, m['new'].path):
+        if b.path in allowed:
             continue
         T = None
         for bi, t in b.calls():
@@ -269,7 +305,7 @@ def check(ctx, rep):
             if k.startswith('core::cell::UnsafeCell::') and k.rsplit('::', 1)[-1] in ('get', 'raw_get', 'get_mut', 'into_inner'):
                 offenders.append((b, bi, 'reaches into the cell'))
     rep.floor('R4', 'bodies in cadence-macros', nbodies, 10)
-    rep.ob('R4', 'frame', not offenders, offenders[0][0].where(offenders[0][1]) if offenders else '', 'only set() writes state/cell, only get() reads the cell' if not offenders else
+    rep.ob('R4', 'frame', not offenders, (offenders[0][0].where(offenders[0][1]) if offenders[0][1] is not None else offenders[0][0].where()) if offenders else '', 'only set() writes state/cell, only get() reads the cell' if not offenders else
            '%s %s' % (offenders[0][0].short(), offenders[0][2]))
     # is_set does not touch the cell
     acc_i = cell_accesses(ib, Ti, cellf)
